@@ -429,6 +429,10 @@ def check_step(s, op, arg):
 
 def classify(s, op):
     ref = referenced(s)
+    if op == 'normalize_instruments' and 'unreferenced-relative' in ref:
+        # normalize_instruments only changes what a relative note refers to across a gap (the part absent from a chord);
+        # a drum note in front of another relative note of the same score is beside the point here
+        return 'unreferenced-relative'
     if ref and op in ('to_absolute_note', 'to_scale_note', 'normalize_instruments'):
         return ref[0]
     if op in NEEDS_EQUAL and not equal_parts(s):
